@@ -178,7 +178,7 @@ def roundtrip(sf, p, ir, via):
 def single_op_specs(spec):
     """for culprit search: each op alone (with the measurements it depends on before it)"""
     for j, op in enumerate(spec["ops"]):
-        deps = {p["m"] for p in op.get("pars", []) if isinstance(p, dict) and "m" in p}
+        deps = {p[key] for p in op.get("pars", []) if isinstance(p, dict) for key in ("m", "m2") if key in p}
         pre = [dict(cls="MeasureHomodyne", regs=[m], pars=[0.0]) for m in sorted(deps)]
         yield op, dict(spec, ops=pre + [copy.deepcopy(op)])
 
@@ -769,10 +769,13 @@ PLANS = [  # (features, relative weight)
     (("dagger", "options", "extra_opts"), 1),
     (("repeat", "share", "options"), 2),
     (("delnew", "dagger"), 1),
+    (("wide", "measured", "dagger", "meas"), 2),
+    (("wide", "free", "dagger", "options"), 1),
 ]
 TDM_PLANS = [
     (("dagger", "options", "select"), 3),
     (("loopexpr", "nlist", "dagger"), 1),
+    (("wide", "loopexpr", "dagger", "select"), 1),
 ]
 
 
